@@ -103,8 +103,8 @@ theorem ctx_arg (n : Nat) (cur : Pos) (env : Env) (e : Expr) (s : SS)
 def ctxFnTail (e : Expr) : Expr := wrapForm [wrapForm [.sym "fn", .btup [], e]]
 
 def withLam (s : SS) (env : Env) (e : Expr) : SS :=
-  { lams := s.lams.push { params := [], body := [e], env := env, name := none },
-    st := (s.st.alloc (.lam s.lams.size 0)).1 }
+  { s with lams := s.lams.push { params := [], body := [e], env := env, name := none },
+           st := (s.st.alloc (.lam s.lams.size 0)).1 }
 
 def fnResult (env : Env) : R (Value × Env) → R (Value × Env)
   | .ok (v, _) s => .ok (v, env) s
